@@ -3,13 +3,13 @@
 import json, os, re
 
 def key(d):
-    m = re.match(r"C(\d+)(r[23456])?-m(\d+)", d)
+    m = re.match(r"C(\d+)(r[234567])?-m(\d+)", d)
     return (int(m.group(1)), int(m.group(2)[1]) if m.group(2) else 0, int(m.group(3)))
 
 rows = []
 for d in sorted(os.listdir("/verif/seeded"), key=key):
     meta = json.load(open("/verif/seeded/%s/meta.json" % d))
-    first = "missed" if meta["note"].startswith("missed") or meta["note"].startswith("set aside") or meta["note"].startswith("NOT caught") or "no longer compiled" in meta["note"] else ("widened first" if meta["note"].startswith("anticipated") else "caught")
+    first = "missed" if meta["note"].startswith("missed") or meta["note"].startswith("set aside") or meta["note"].startswith("NOT caught") or "no longer compiled" in meta["note"] or meta["note"].startswith("at first the harness") else ("widened first" if meta["note"].startswith("anticipated") or meta["note"].startswith("widened before") else "caught")
     rows.append("| %s | %s | %s | %s | %s |" % (d, meta["change"].replace("|", "\\|"), first, ", ".join(meta["caught_by"]) or "—", meta["note"].replace("|", "\\|")))
 print("| seeded change | what it does | as first built | caught by (now) | how |")
 print("|---|---|---|---|---|")
